@@ -45,9 +45,16 @@ def run(ctx):
             ctx.ob("C09.1", "%s|reader|%s" % (nr.id, short(ty)), "a body reader that does not wrap the connection's shared reader cannot disturb the next message", True, nr.loc(bb), nontrivial=False)
             continue
         if sr_re.match(ty):
-            # raw hand-over of the shared reader: allowed only for protocol upgrades
-            ok = upgrade_arm(nr, bb)
-            ctx.ob("C09.1", "%s|raw-reader-only-on-upgrade" % nr.id, "the raw shared reader is handed out only for `Connection: upgrade` requests (last request of the connection)", ok, nr.loc(bb))
+            # raw hand-over of the shared reader: allowed only for protocol upgrades (decided on the framing table)
+            import framing_rules as FRM
+            FM = FRM.fmodel(facts)
+            bad = []
+            for A in FRM.assignments():
+                for r in FM.rows:
+                    if r["end"] == "return" and r["kind"] == "ok" and FM.compatible(r, A) and (r["reader"] == "raw") != A["upgrade"]:
+                        bad.append((A, r["reader"]))
+            ctx.ob("C09.1", "%s|raw-reader-only-on-upgrade" % nr.id, "the raw shared reader is handed out exactly for `Connection: upgrade` requests (last request of the connection)", not bad, nr.loc(bb),
+                   None if not bad else str(bad[:3]))
             continue
         n_wrapping += 1
         # drop glue of this reader type: find a user Drop above the shared reader that reads it
@@ -61,10 +68,19 @@ def run(ctx):
 
     # ---- C09.2 EqualReader::drop drains
     erd = method(facts, T_DROP, ER, "drop")
-    f = erd
+    import inline
+    import queue_rules as Q
+    er_fields = facts.adt(ER)["variants"][0]["fields"]
+    RFIELD = [x["name"] for x in er_fields if x["ty"] == "R"]
+    SFIELD = [x["name"] for x in er_fields if x["ty"] == "usize"]
+    ctx.require(len(RFIELD) == 1 and len(SFIELD) == 1, "C09.2: inner-reader / remaining-size fields of EqualReader")
+    RFIELD, SFIELD = RFIELD[0], SFIELD[0]
+    f = inline.inlined(facts, erd.id, stop=lambda d: facts.fns[d].rec.get("local") and (facts.fns[d].file != erd.file or "as std::io::Read>::read" in d))
     ctx.touch(f)
-    reads = [bb for bb, t in f.calls() if t.get("callee") == "std::io::Read::read" and "reader" in arg_origin_fields(f, t)]
-    ctx.require(reads, "C09.2: EqualReader::drop does not read its inner reader")
+    reads = [bb for bb, t in f.calls() if (t.get("callee") == "std::io::Read::read" or call_matches(t, r" as std::io::Read>::read$")) and RFIELD in arg_origin_fields(f, t)]
+    if not reads:
+        ctx.ob("C09.2", "%s|reads-inner" % erd.id, "the destructor of the length-limited reader reads the rest of the body from its inner reader", False, "%s:%d" % (f.file, f.line))
+        reads = []
     for i, rb in enumerate(reads):
         ctx.ob("C09.2", "%s|read-in-loop|%d" % (f.id, i), "the discard read is repeated (loop)", f.in_loop(rb), f.loc(rb))
     # loop condition: remaining > 0 (remaining derives from self.size)
@@ -100,7 +116,7 @@ def run(ctx):
                 back = True
     ctx.ob("C09.2", "%s|count-decremented" % f.id, "the remaining count decreases by exactly what the read returned before looping", back, "%s:%d" % (f.file, f.line))
     # the discard reads never ask for more than is still owed (otherwise the start of the next message is swallowed)
-    ctr = {s_["lhs"]["l"] for bb_, i_, s_ in f.assigns() if not s_["lhs"]["p"] and s_["rhs"]["rv"] == "use" and "size" in origin_fields(f.origin(s_["rhs"]["op"]))}
+    ctr = {s_["lhs"]["l"] for bb_, i_, s_ in f.assigns() if not s_["lhs"]["p"] and s_["rhs"]["rv"] == "use" and SFIELD in origin_fields(f.origin(s_["rhs"]["op"]))}
     for bb_, i_, s_ in f.assigns():
         if not s_["lhs"]["p"] and s_["rhs"]["rv"] == "use" and any(y[0] == "binop" for y in origin_walk(f.origin(s_["rhs"]["op"]))) and any(y[0] == "local" and y[1] in ctr for y in origin_walk(f.origin(s_["rhs"]["op"]))):
             ctr.add(s_["lhs"]["l"])
@@ -108,7 +124,7 @@ def run(ctx):
         okb, why = shared.read_buffer_bounded_by(f, rb, ctr)
         ctx.ob("C09.2", "%s|discard-read-bounded|%d" % (f.id, i), "each discarding read asks for at most the number of body bytes still owed", okb, f.loc(rb), why)
     # initial remaining is self.size
-    init_ok = any(s["rhs"]["rv"] == "use" and "size" in origin_fields(f.origin(s["rhs"]["op"])) for bb, i, s in f.assigns() if not s["lhs"]["p"])
+    init_ok = any(s["rhs"]["rv"] == "use" and SFIELD in origin_fields(f.origin(s["rhs"]["op"])) for bb, i, s in f.assigns() if not s["lhs"]["p"])
     ctx.ob("C09.2", "%s|starts-from-size" % f.id, "the number of bytes to discard is the reader's remaining size", init_ok, "%s:%d" % (f.file, f.line))
 
     # ---- C09.6 end-of-body latches: a draining destructor that is switched off by a flag (`finished`) relies on that flag
@@ -182,127 +198,48 @@ def run(ctx):
     ctx.counts["C09.6 latch assignments"] = n_latch
 
     # ---- C09.3 buffered bodies are read completely before the Request is built
-    req_cons = {bb for g, bb, s in facts.constructions(REQ) if g.id == nr.id}
-    ctx.require(req_cons, "C09.3: Request construction not found in new_request")
-    pre_reads = [bb for bb, t in nr.calls() if t.get("callee") == "std::io::Read::read" and nr.in_loop(bb)]
-    ctx.ob("C09.3", "%s|preread-present" % nr.id, "small bodies are read at parse time in a loop", bool(pre_reads), "%s:%d" % (nr.file, nr.line))
-    for i, rb in enumerate(pre_reads):
-        # loop header: innermost bool switch dominating the read from which the Request construction is reachable on one edge only
-        dom = nr.dominators(False)
-        hdrs = [b for b in dom[rb] if bool_switch(nr, b) and nr.in_loop(b)]
-        ctx.require(hdrs, "C09.3: loop header of the pre-read not found")
-        h = max(hdrs, key=lambda b: len(dom[b]))
-        bs = bool_switch(nr, h)
-        exit_t = bs[2] if rb in nr.reach([bs[1]], blocked={h}, unwind=False) else bs[1]
-        reach = nr.reach([nr.normal_target(rb)], blocked={exit_t}, unwind=False)
-        ok = not (reach & req_cons)
-        ctx.paths += 1
-        ctx.ob("C09.3", "%s|complete-before-request|%d" % (nr.id, i), "the Request is built only after the pre-read loop has left through its completion test", ok, nr.loc(rb))
+    import rules_C03
+    rules_C03.preread_rules(ctx, "C09.3")
 
     # ---- C09.4 reader hand-off
-    srd = method(facts, T_DROP, SR, "drop")
-    srr = method(facts, T_READ, SR, "read")
-    srb_next = method(facts, T_ITER, SRB, "next")
-    ctx.touch(srd); ctx.touch(srr); ctx.touch(srb_next)
-    f = srd
-    sw = None
-    for bb in sorted(f.live_blocks()):
-        s2 = switch_on_discr(f, bb)
-        if s2 and s2[0].get("adt") == SRI and not f.blocks[bb]["cleanup"]:
-            sw = s2
-            break
-    ctx.require(sw is not None, "C09.4: SequentialReader::drop does not match on its state")
-    rv, m, otherwise, rest = sw
-    sends = {bb: t for bb, t in f.calls() if call_is(t, SEND) and "next" in arg_origin_fields(f, t)}
-    for v in ("MyTurn", "Waiting"):
-        tgt = m.get(v, otherwise if v in rest else None)
-        ctx.require(tgt is not None, "C09.4: no %s arm in SequentialReader::drop" % v)
-        reach = f.reach([tgt], blocked=set(sends), unwind=False)
-        ok = bool(sends) and not any(r in reach for r in f.returns())
-        ctx.paths += 1
-        ctx.ob("C09.4", "%s|%s-passes-reader-on" % (f.id, v), "a dropped reader in state %s hands the socket reader to its successor on every path" % v, ok, f.loc(tgt))
-        for sb, t in sends.items():
-            if sb in f.reach([tgt], unwind=False) and (v == "MyTurn" or sb in shared.arm_region(f, tgt)):
-                o = f.origin(t["args"][1])
-                if v == "MyTurn":
-                    okp = any(x[0] == "downcast" and x[2] == "MyTurn" for x in origin_walk(o))
-                else:
-                    okp = origin_has_call(o, r"Receiver::<T>::recv$")
-                if sb in shared.arm_region(f, tgt):
-                    ctx.ob("C09.4", "%s|%s-sends-the-reader" % (f.id, v), "what is sent on is the socket reader itself", okp, f.loc(sb), origin_str(o))
-    for g, bb, s in facts.constructions(SRI, "Empty"):
-        ctx.ob("C09.4", "empty-state|%s" % g.id, "the Empty state exists only inside SequentialReader::drop", g.id == srd.id, g.loc(bb))
-    # read(): after waiting for the reader it is kept (state MyTurn) on every path
-    f = srr
-    sw = None
-    for bb in sorted(f.live_blocks()):
-        s2 = switch_on_discr(f, bb)
-        if s2 and s2[0].get("adt") == SRI and not f.blocks[bb]["cleanup"]:
-            sw = s2
-            break
-    ctx.require(sw is not None, "C09.4: SequentialReader::read does not match on its state")
-    rv, m, otherwise, rest = sw
-    wt = m.get("Waiting", otherwise if "Waiting" in rest else None)
-    stores = set()
-    for bb, i, s in f.assigns():
-        if pl_fields(s["lhs"]) == ["inner"] and s["rhs"]["rv"] in ("agg", "use"):
-            o = f.origin(s["rhs"]["op"]) if s["rhs"]["rv"] == "use" else ("agg", s["rhs"].get("adt"), [], None, s["rhs"].get("variant"))
-            if o[0] == "agg" and o[4] == "MyTurn":
-                stores.add(bb)
-    recvs = [bb for bb, t in f.calls() if call_is(t, RECV)]
-    reach = f.reach([f.normal_target(b) for b in recvs], blocked=stores, unwind=False)
-    ok = bool(recvs) and bool(stores) and not any(r in reach for r in f.returns())
-    ctx.ob("C09.4", "%s|keeps-reader-after-wait" % f.id, "a reader received from the predecessor is stored (state MyTurn) before read returns, on every path", ok, "%s:%d" % (f.file, f.line))
-    # builder chaining (symbolic)
-    paths = symex.enumerate_paths(srb_next)
-    ctx.paths += len(paths)
-    ctx.require(len(paths) >= 2, "C09.4: expected two paths (First / NotFirst) through the reader builder")
-    kinds = set()
-    for pi, p in enumerate(paths):
-        st = symex.run_path(srb_next, p)
-        ret = st.read_key((0,))
-        ok = ret[0] == "some" and ret[1][0] == "agg" and ret[1][1] == SR
-        if not ok:
-            ctx.ob("C09.4", "%s|returns-reader|p%d" % (srb_next.id, pi), "the reader builder always returns Some(reader)", False, "%s:%d" % (srb_next.file, srb_next.line), symex.sym_str(ret))
-            continue
-        flds = ret[1][3]
-        inner, nxt = flds.get("inner"), flds.get("next")
-        stored = st.read_key((1, "*", ".inner"))
-        ok_pair = nxt is not None and nxt[0] == "tx" and stored[0] == "agg" and stored[2] == "NotFirst" and list(stored[3].values())[0] == ("rx", nxt[1], nxt[2])
-        ctx.ob("C09.4", "%s|successor-channel|p%d" % (srb_next.id, pi), "each reader's `next` sender is paired with the receiver the builder keeps for the following reader", ok_pair,
-               "%s:%d" % (srb_next.file, srb_next.line), None if ok_pair else "next=%s builder.inner=%s" % (symex.sym_str(nxt), symex.sym_str(stored)))
-        okin = inner[0] == "agg" and inner[2] in ("MyTurn", "Waiting") and "init" in str(inner) and "(1, '*', '.inner')" in str(inner)
-        kinds.add(inner[2] if inner[0] == "agg" else "?")
-        ctx.ob("C09.4", "%s|predecessor-link|p%d" % (srb_next.id, pi), "a new reader starts from what the builder held: the socket reader itself (first) or the predecessor's receiver", okin,
-               "%s:%d" % (srb_next.file, srb_next.line), symex.sym_str(inner))
-    ctx.ob("C09.4", "%s|both-states" % srb_next.id, "first reader owns the socket reader, later ones wait for it", kinds == {"MyTurn", "Waiting"}, "%s:%d" % (srb_next.file, srb_next.line), str(kinds))
-    # ClientConnection::read: the request gets the *old* header reader, the connection keeps the fresh one
-    g = cc_read
+    import turn_rules as T, parser_rules as PRS, absint
+    T.rule_reader_chain(ctx, "C09.4")
+    # the head reader: the request gets the reader the head was just read from, the connection keeps the freshly drawn one
+    PM = PRS.pmodel(facts)
+    g = PM.rd
+    RC = T.reader_chain(facts)
+    srb_next = RC.next
+    keep = [x["name"] for x in facts.adt(CC)["variants"][0]["fields"] if re.match(r"^util::sequential::SequentialReader<", x["ty"])]
+    ctx.require(len(keep) == 1, "C09.4: the connection's current head reader field")
     nrc = [(bb, t) for bb, t in g.calls() if call_matches(t, r"^request::new_request$")]
-    ctx.require(len(nrc) == 1, "C09.4: new_request call in read()")
-    p = g.path([0], [nrc[0][0]], unwind=False)
-    # evaluate only the straight-line tail after the header loop: find the block of source.next()
-    srcn = [bb for bb, t in g.calls() if call_is(t, srb_next.id)]
-    ctx.require(len(srcn) == 1, "C09.4: source.next() call in read()")
-    tail = g.path([srcn[0]], [nrc[0][0]], unwind=False)
-    st = symex.run_path(g, tail, last_stmts_only=True)
-    t = g.term(nrc[0][0])
-    # index of the R-typed argument
-    ridx = [i for i, a in enumerate(t["arg_tys"]) if "SequentialReader<" in a]
-    ctx.require(len(ridx) == 1, "C09.4: reader argument of new_request")
-    given = st.operand(t["args"][ridx[0]])
-    kept = st.read_key((1, "*", ".next_header_source"))
-    ok = given == ("init", (1, "*", ".next_header_source")) and kept != given
-    ctx.ob("C09.4", "%s|request-gets-positioned-reader" % g.id, "the request's body reader is the reader the head was just read from; the connection keeps the freshly drawn one for the next head",
-           ok, g.loc(nrc[0][0]), "given=%s kept=%s" % (symex.sym_str(given), symex.sym_str(kept)))
+    srcn = [bb for bb, t in g.calls() if call_name(t) == srb_next.id]
+    ok = len(nrc) == 1 and len(srcn) == 1
+    detail = None
+    if ok:
+        t0 = g.term(srcn[0])
+        st = symex.Sym(g)
+        NEW = ("sym", "freshly-drawn-reader")
+        OLD = ("init", (1, "*", "." + keep[0]))
+        st.write_key(pl_key(t0["dest"]), ("some", NEW))
+        ps = [p for p in absint.explore(g, t0["target"], st, stop=lambda bb, t, s: "built" if bb == nrc[0][0] else None) if p.end[0] == "stop"]
+        ok = bool(ps)
+        for p in ps:
+            args = [absint.deep(p.state, p.state.operand(a)) for a in g.term(nrc[0][0])["args"]]
+            given_old = any(a == OLD for a in args)
+            kept = absint.deep(p.state, p.state.read_key((1, "*", "." + keep[0])))
+            if not (given_old and kept == NEW):
+                ok = False
+                detail = "kept=%s" % symex.sym_str(kept)
+    ctx.ob("C09.4", "%s|request-gets-positioned-reader" % PM.read_def, "the request's body reader is the reader the head was just read from; the connection keeps the freshly drawn one for the next head",
+           ok, g.loc(nrc[0][0]) if nrc else "%s:%d" % (g.file, g.line), detail)
 
     # ---- C09.5 one buffering layer per connection
     sites = [(h, bb, t) for h, bb, t in facts.all_calls(lambda t: call_matches(t, r"^std::io::BufReader::<R>::(new|with_capacity)$"))]
-    cc_new = roles.inherent(facts, CC, "new")
+    cc_ctor = sorted({g2.id for g2, b2, s2 in facts.constructions(CC)})
     ctx.floor("C09.5 BufReader construction sites", len(sites), 1)
     for h, bb, t in sites:
         ctx.ob("C09.5", "bufreader|%s" % h.id, "the socket is wrapped in a BufReader exactly once per connection (a second buffering layer would swallow bytes of the next message)",
-               h.id == cc_new.id and not h.in_loop(bb), h.loc(bb))
+               h.id in cc_ctor and not h.in_loop(bb), h.loc(bb))
     return {}
 
 
